@@ -163,6 +163,10 @@ def oneshot_entry_points(rep, tier, wd):
                 if ref[0] != "exc" and not wire_match(canon(p[3]), ref):
                     pass        # the reference wire form is C02/C11's business; here only agreement between entry points is judged
             else:
+                if p[3][0] != "ok":
+                    continue        # C15 speaks of conforming documents ("and dually for decoding"): what the entry points do with
+                                    # input the reference rejects is C03 / C05's business (e.g. null under a bound TypeVar is
+                                    # refused at the top of a shape and let through as an element -- "act as if Optional[bound]")
                 d = concretize_value(p[2], sj.reg)
                 outs = {}
                 for name, fn in (("one-shot decode()", lambda: oneshot_decode(d, sj.ann)),
